@@ -2,6 +2,7 @@ package sx
 
 import (
 	"fmt"
+	"strconv"
 	"time"
 
 	bleve "github.com/blevesearch/bleve/v2"
@@ -35,6 +36,43 @@ func CrashRecords(evs []Event) []any {
 			out = append(out, map[string]any{"ev": name, "epoch": ev["epoch"]})
 		case "Return", "Callback":
 			out = append(out, map[string]any{"ev": name, "b": ev["b"]})
+		case "MemMergeEquiv":
+			conv := func(v any) (int, int, []any) {
+				m, _ := v.(map[string]any)
+				ep := 0
+				switch x := m["epoch"].(type) {
+				case int:
+					ep = x
+				case float64:
+					ep = int(x)
+				}
+				seq := 0
+				switch in := m["internal"].(type) {
+				case map[string]string:
+					if sv, ok := in["seq"]; ok && len(sv) > 1 {
+						seq, _ = strconv.Atoi(sv[1:])
+					}
+				case map[string]any:
+					if sv, ok := in["seq"].(string); ok && len(sv) > 1 {
+						seq, _ = strconv.Atoi(sv[1:])
+					}
+				}
+				segs := []any{}
+				if ss, ok := m["segs"].([]any); ok {
+					for _, x := range ss {
+						sm := x.(map[string]any)
+						f := 0
+						if fs, _ := sm["file"].(string); fs != "" {
+							f = 1
+						}
+						segs = append(segs, []any{sm["id"], sm["count"], sm["deleted"], f})
+					}
+				}
+				return ep, seq, segs
+			}
+			sep, sseq, ssegs := conv(ev["snap"])
+			eep, eseq, esegs := conv(ev["equiv"])
+			out = append(out, map[string]any{"ev": name, "sepoch": sep, "sseq": sseq, "ssegs": ssegs, "eepoch": eep, "eseq": eseq, "esegs": esegs})
 		case "CopyBegin", "Recovered", "PostWrite", "Points", "SourceAfter":
 			m := map[string]any{}
 			for k, v := range ev {
